@@ -20,7 +20,7 @@ Terms are nested tuples (hashable):
 """
 import ast
 
-from .core import GenV
+from .core import GenV, NamedTupleV
 from .core import (Interp, TupleV, Closure, FuncRef, ClassRef, ExtRef, ObjV, BoundMethod, SuperV, SliceV, Ctx, PartialV, StaticV, KwV, ARGS, is_static)
 GENERIC_VALUES = (TupleV, Closure, FuncRef, ClassRef, ExtRef, ObjV, BoundMethod, SuperV, SliceV, PartialV, GenV)
 from .loader import Inconclusive, norm, dotted_of
@@ -56,6 +56,9 @@ def is_const(t, *vals):
     return isinstance(t, tuple) and len(t) == 2 and t[0] == "const" and (not vals or any(t[1] == v and type(t[1]) == type(v) for v in vals))
 
 
+OPAQUE_GENERATORS = set()      # generator functions whose generator object ended up inside a term (consumed by something that is not read as a loop)
+
+
 def T(v):
     """convert generic interpreter values to terms"""
     if isinstance(v, TupleV):
@@ -67,6 +70,7 @@ def T(v):
         CLOSURES[(v.node.lineno, getattr(v.node, "col_offset", 0))] = v
         return ("closure", v.node.lineno, getattr(v.node, "col_offset", 0))
     if isinstance(v, GenV):
+        OPAQUE_GENERATORS.add(v.func.qname)
         return ("generator", v.func.qname, tuple(sorted((k, T(x)) for k, x in v.bound.items())))
     if isinstance(v, FuncRef):
         return ("fn", v.func.qname)
@@ -745,6 +749,18 @@ class Sym(Interp):
         """early returns / guard clauses: the returned value is the phi over the conditions that separate the returns
         (`if c: return a` ... `return b`  ==  `return a if c else b`), not an unordered join"""
         base = len(entry_env.get("$path", ()) or ())
+        vals_ = [v for v, _, _ in rets]
+        if len(vals_) > 1 and all(isinstance(v, NamedTupleV) for v in vals_) and len({v.fields for v in vals_}) == 1:
+            # records of one namedtuple class returned on every path: the record of the per-field values (spec.min is phi(c, a.min, b.min))
+            cols = []
+            for k_ in range(len(vals_[0].items)):
+                col = self.h_returns([(v.items[k_], node, env) for v, node, env in rets], entry_env, ctx)
+                if col is None:
+                    cols = None
+                    break
+                cols.append(col)
+            if cols is not None:
+                return NamedTupleV(cols, vals_[0].fields)
         items = []
         for v, node, env in rets:
             p_ = tuple((env.get("$path", ()) or ())[base:])
